@@ -65,7 +65,7 @@ MI == <<
   Cl(BO(It(GA, GB)), ConjOf(<<Cut, BO(GA), BO(GB)>>)),
   Cl(BO(G), C1("callable", G))
 >>
-UserPreds == << Cl(C1("user_pred", P1(V("_"))), True), Cl(C1("user_pred", C2("p2", V("_"), V("_1"))), True) >>
+UserPreds == << Cl(C1("user_pred", P1(V("U"))), True), Cl(C1("user_pred", C2("p2", V("U"), V("U1"))), True) >>
 DynAll == { <<"p", 1>>, <<"p2", 2>> }
 
 (* ---------------------------------------------------------------------------------------- *)
